@@ -644,6 +644,11 @@ func (e *emitter) emit(o *origin, mu mutation, toCoq bool) *Case {
 	return &c
 }
 
+// coqMask: the single-bit masks and FF
+func coqMask(fl byte) bool {
+	return fl == 0xFF || fl&(fl-1) == 0
+}
+
 // kindClass: "flip@12^01" -> "flip", "inject:evil.bin(1)t0@2+gz" -> "inject/gz"
 func kindClass(kind string, gz bool) string {
 	k := strings.TrimSuffix(kind, "+gz")
@@ -725,7 +730,9 @@ func runBase(e *emitter, bi int, b *base, bases []*base, isSmall, thorough bool,
 				for _, fl := range ms {
 					d := append([]byte{}, data...)
 					d[pos] ^= fl
-					e.emit(o, mutation{fmt.Sprintf("flip@%d^%02x", pos, fl), false, d}, isSmall)
+					// thorough: every one of the 255 masks goes through the reader and the oracle; Coq evaluates all
+					// of them on the two smallest bases and the single-bit masks and FF on the others
+					e.emit(o, mutation{fmt.Sprintf("flip@%d^%02x", pos, fl), false, d}, isSmall && (bi < 2 || coqMask(fl)))
 				}
 			}
 		} else {
@@ -741,7 +748,7 @@ func runBase(e *emitter, bi int, b *base, bases []*base, isSmall, thorough bool,
 				for _, fl := range ms {
 					d := append([]byte{}, data...)
 					d[pos] ^= fl
-					e.emit(o, mutation{fmt.Sprintf("gzflip@%d^%02x", pos, fl), true, d}, isSmall)
+					e.emit(o, mutation{fmt.Sprintf("gzflip@%d^%02x", pos, fl), true, d}, isSmall && coqMask(fl))
 					if isSmall && fl == 0x01 {
 						restoreSet = append(restoreSet, restoreItem{kind: "gzflip", data: d, state: b.state})
 					}
